@@ -8,6 +8,7 @@ R3: ConservationTrace.tla judges the recorded trace."""
 import json
 import os
 import vlib
+import rcvstage
 
 LEVEL = "model_checking"
 R1 = """SPECIFICATION Spec
@@ -16,7 +17,7 @@ INVARIANTS Conservation MonitorQuiet RouteStable QuiesceClause
 CHECK_DEADLOCK FALSE
 """
 SCHED = """SPECIFICATION Spec
-CONSTANTS MaxLen = %d MaxOffers = %d MaxTicks = %d Shapes = {0, 1, 2, 3}
+CONSTANTS MaxLen = %d MaxOffers = %d MaxTicks = %d Shapes = {0, 1, 2, 3, 4, 5}
 CONSTRAINT Emit
 CHECK_DEADLOCK FALSE
 """
@@ -34,6 +35,7 @@ def run(ctx):
                         label="broken design: Reset as a later command (must fail)", must_pass=False)
     if bad.violated not in ("Conservation", "MonitorQuiet", "QuiesceClause"):
         raise vlib.MachineryError("vacuity: the broken design was not refuted (%s)" % bad.violated)
+    rcv_named = rcvstage.run(ctx, clauses=("Garbled", "NoPhantom", "AtMostOnce", "Lost"))   # the socket side: nothing lost or duplicated
 
     plans = [("sim9", 9, 4, 3, "num=%d" % (150 if ctx.tier == "quick" else 4000), 10)]
     if ctx.tier == "thorough":
